@@ -149,6 +149,12 @@ func finish(w io.Writer, lexErr error) error {
 """)
 
 
+def ctl_pi_loop_returns(rw):
+    # the shape of seeded change C14-m2, re-based onto the current svg.go
+    rw.sub("svg/svg.go", "\t\t\t\tt := *tb.Shift()\n\t\t\t\tif t.TokenType == xml.ErrorToken {\n\t\t\t\t\tbreak\n\t\t\t\t}\n",
+           "\t\t\t\tt := *tb.Shift()\n\t\t\t\tif t.TokenType == xml.ErrorToken {\n\t\t\t\t\tif l.Err() == io.EOF {\n\t\t\t\t\t\treturn nil\n\t\t\t\t\t}\n\t\t\t\t\treturn l.Err()\n\t\t\t\t}\n")
+
+
 T = ["c14_exits"]
 REWRITES = [
     R("c14-err-renamed", T, "invariant", "rename-local", "xml exit block: err -> werr", err_renamed),
@@ -179,5 +185,6 @@ REWRITES = [
     R("c14-ctl-recover", T, "changes", "control", "json: deferred recover()", ctl_recover),
     R("c14-ctl-suberr-swallowed", T, "changes", "control", "svg: a sub-minifier error path returns nil", ctl_suberr_swallowed),
     R("c14-ctl-helper-swallows", T, "changes", "control", "svg: error wrapping helper that can return nil", ctl_helper_swallows),
+    R("c14-ctl-pi-loop-returns", T, "changes", "control", "svg: returns from inside the processing-instruction loop without the probe (seeded C14-m2 re-based)", ctl_pi_loop_returns),
     R("c14-ctl-exit-helper-no-probe", T, "changes", "control", "xml: exit helper without the probe write", ctl_exit_helper_no_probe),
 ]
